@@ -227,7 +227,21 @@ def chk_banded(c):
             assert tuple(int(v) for v in mlmatrix.reindex_from_multilevel(list(M), bs)) == (i, j), 'reindex_to/from_multilevel'
 
 
-CHECKS = {'nonzero': chk_nonzero, 'matrix': chk_matrix, 'rows': chk_rows, 'sparsity': chk_sparsity, 'banded': chk_banded}
+def chk_large(c):
+    """index arithmetic beyond 2^32 rows/columns: only the structure is built (a handful of nonzeros), oracle = Python integers"""
+    from pyiga import mlmatrix_cy
+    S = _structure(c)
+    for lt in (False, True):
+        exp = _expected(c, lt)
+        I, J = S.nonzero(lower_tri=lt)
+        got = list(zip(I.tolist(), J.tolist()))
+        assert got == exp, 'nonzero(lower_tri=%s) with %r blocks: %r != %r' % (lt, c['bs'], got[:4], exp[:4])
+        IJ = mlmatrix_cy.ml_nonzero_nd(S.bidx, S._bs_arr, lower_tri=lt)
+        got = list(zip(IJ[0].tolist(), IJ[1].tolist()))
+        assert got == exp, 'ml_nonzero_nd(lower_tri=%s) with %r blocks: %r != %r' % (lt, c['bs'], got[:4], exp[:4])
+
+
+CHECKS = {'large': chk_large, 'nonzero': chk_nonzero, 'matrix': chk_matrix, 'rows': chk_rows, 'sparsity': chk_sparsity, 'banded': chk_banded}
 
 
 def _patterns(m, n, limit=None, rng=None):
@@ -318,6 +332,10 @@ def generate(tier, rng):
     yield 'matrix', {'bs': [[2, 3], [4, 3]], 'bidx': [[[0, 0], [1, 2], [0, 1]], [[0, 0], [3, 2], [1, 1], [2, 0]]], 'seed': 5}
     yield 'matrix', {'bs': [[3, 2], [3, 4]], 'bidx': [[[0, 0], [2, 1], [1, 1]], [[0, 0], [2, 3], [1, 1], [2, 0]]], 'seed': 6}
     yield 'matrix', {'bs': [[3, 2], [2, 1], [2, 3]], 'bidx': [[[0, 0], [2, 1]], [[0, 0], [1, 0]], [[0, 2], [1, 1]]], 'seed': 7}
+    # row/column numbers beyond 2^32 (the products in the index arithmetic must be formed in 64 bits)
+    for bs, ent in (([[70000, 70000]] * 2, [[69999, 69999], [0, 5], [65536, 65537]]), ([[66000, 70000], [70000, 66000]], [[65999, 65999], [1, 0]]),
+                    ([[2000, 2000]] * 3, [[1999, 1999], [0, 1999], [1700, 3]]), ([[3000, 1700], [1700, 3000], [1000, 1000]], [[999, 999], [998, 0]])):
+        yield 'large', {'bs': bs, 'bidx': [ent] * len(bs), 'seed': 0}
     # knot-vector sparsity
     kvs = list(kvgen.knotvec_arrays(pmax=3 if quick else 5, max_break=3))
     for (p1, kv1) in kvs:
